@@ -79,6 +79,27 @@ def job_handler(prop):
     return handle
 
 
+def decorate_jobs(jobs, seed, prop):
+    """What every check adds to the jobs of its plan generator: the stream-buffering fault and the regression plans."""
+    # F-CHUNK: in about a third of the runs the simulated input streams buffer only a window of the file at a time (like a
+    # file stream; an istringstream-like whole-image get area otherwise), window size drawn per run
+    from simlib.prng import Rng
+    for i, j in enumerate(jobs):
+        r = Rng(seed, prop, 'read-window', i)
+        if 'read_window' not in j['plan'] and r.chance(0.35):
+            j['plan']['read_window'] = r.choice([1, 3, 16, 100, 512, 4096, 8191])
+    # plans that once exposed a genuine defect (now repaired) are re-run by every check of their property
+    regdir = os.path.join(VERIF, 'regressions', prop)
+    if os.path.isdir(regdir):
+        for fn in sorted(os.listdir(regdir)):
+            if fn.endswith('.json'):
+                with open(os.path.join(regdir, fn)) as f:
+                    rp = json.load(f)
+                jobs.insert(0, {'plan': rp.get('plan', rp), 'meta': {'kind': 'regression', 'file': fn}})
+    return jobs
+
+
+
 def run_check(prop, tier):
     t0 = time.time()
     seed = int(os.environ.get('VERIF_SEED', '1'))
@@ -88,21 +109,7 @@ def run_check(prop, tier):
     known = report.load_known()
     try:
         jobs = mod.jobs(tier, seed, pool)
-        # F-CHUNK: in about a third of the runs the simulated input streams buffer only a window of the file at a time (like a
-        # file stream; an istringstream-like whole-image get area otherwise), window size drawn per run
-        from simlib.prng import Rng
-        for i, j in enumerate(jobs):
-            r = Rng(seed, prop, 'read-window', i)
-            if 'read_window' not in j['plan'] and r.chance(0.35):
-                j['plan']['read_window'] = r.choice([1, 3, 16, 100, 512, 4096, 8191])
-        # plans that once exposed a genuine defect (now repaired) are re-run by every check of their property
-        regdir = os.path.join(VERIF, 'regressions', prop)
-        if os.path.isdir(regdir):
-            for fn in sorted(os.listdir(regdir)):
-                if fn.endswith('.json'):
-                    with open(os.path.join(regdir, fn)) as f:
-                        rp = json.load(f)
-                    jobs.insert(0, {'plan': rp.get('plan', rp), 'meta': {'kind': 'regression', 'file': fn}})
+        jobs = decorate_jobs(jobs, seed, prop)
         deadline = t0 + mod.WALL_CAP[tier]
         results, skipped = pool.map(jobs, job_handler(prop), deadline=deadline)
 
